@@ -713,16 +713,32 @@ func ruleEnumerationFailureWitness(c *Ctx, rule string) {
 		}
 		return false
 	}
-	// dynamicPredicate: an unexported boolean helper of the package that
-	// returns true only with a witness (`func (s Range) isDynamic() bool`)
-	predCache := map[*ssa.Function]int{}
+	isBoundNonZero := func(v ssa.Value) bool {
+		bo, ok := v.(*ssa.BinOp)
+		if !ok || bo.Op != token.NEQ {
+			return false
+		}
+		for _, pr := range [][2]ssa.Value{{bo.X, bo.Y}, {bo.Y, bo.X}} {
+			if k, ok := constInt(pr[1]); ok && k == 0 {
+				if r, ok := loadedField(pr[0]); ok && r.Owner != nil && r.Owner.Obj().Name() == "Range" {
+					return true
+				}
+			}
+		}
+		return false
+	}
+	// witnessWhen(h, want): the unexported boolean helper h of the package
+	// returns `want` only with a witness (`isDynamic()` for want=true,
+	// `static()` for want=false)
+	predCache := map[string]int{}
 	var edgeOf func(fn *ssa.Function) func(f facts, b *ssa.BasicBlock, succ int) facts
-	var dynamicPredicate func(h *ssa.Function) bool
-	dynamicPredicate = func(h *ssa.Function) bool {
-		if v, ok := predCache[h]; ok {
+	var witnessWhen func(h *ssa.Function, want bool) bool
+	witnessWhen = func(h *ssa.Function, want bool) bool {
+		key := fmt.Sprintf("%p/%v", h, want)
+		if v, ok := predCache[key]; ok {
 			return v == 1
 		}
-		predCache[h] = 0
+		predCache[key] = 0
 		if h == nil || h.Blocks == nil || pkgPathOf(h) != modPath+"/internal/imapnum" || h.Signature.Results().Len() != 1 {
 			return false
 		}
@@ -731,15 +747,22 @@ func ruleEnumerationFailureWitness(c *Ctx, rule string) {
 		}
 		edge := edgeOf(h)
 		flow := mustFlow(h, facts{}, nil, edge)
-		var evalT func(v ssa.Value, f facts, seen map[ssa.Value]bool) bool
-		evalT = func(v ssa.Value, f facts, seen map[ssa.Value]bool) bool {
+		var evalT func(v ssa.Value, want bool, f facts, seen map[ssa.Value]bool) bool
+		evalT = func(v ssa.Value, want bool, f facts, seen map[ssa.Value]bool) bool {
 			if seen[v] {
 				return true
 			}
 			seen[v] = true
 			switch x := v.(type) {
 			case *ssa.Const:
-				return x.Value != nil && x.Value.String() == "false" || f.has("witness")
+				if x.Value != nil && (x.Value.String() == "true") != want {
+					return true
+				}
+				return f.has("witness")
+			case *ssa.UnOp:
+				if x.Op == token.NOT {
+					return evalT(x.X, !want, f, seen)
+				}
 			case *ssa.Phi:
 				for k, e := range x.Edges {
 					pred := x.Block().Preds[k]
@@ -752,24 +775,27 @@ func ruleEnumerationFailureWitness(c *Ctx, rule string) {
 							pf = edge(pf, pred, j)
 						}
 					}
-					if !evalT(e, pf, seen) {
+					if !evalT(e, want, pf, seen) {
 						return false
 					}
 				}
 				return true
 			}
-			return isBoundZero(v) || f.has("witness")
+			if want && isBoundZero(v) || !want && isBoundNonZero(v) {
+				return true
+			}
+			return f.has("witness")
 		}
 		for _, r := range returnsOf(h) {
 			f, reach := flow.at(r)
 			if !reach {
 				continue
 			}
-			if !evalT(unspill(r.Results[0]), f, map[ssa.Value]bool{}) {
+			if !evalT(unspill(r.Results[0]), want, f, map[ssa.Value]bool{}) {
 				return false
 			}
 		}
-		predCache[h] = 1
+		predCache[key] = 1
 		return true
 	}
 	edgeOf = func(fn *ssa.Function) func(f facts, b *ssa.BasicBlock, succ int) facts {
@@ -785,9 +811,9 @@ func ruleEnumerationFailureWitness(c *Ctx, rule string) {
 				if a.True == -1 && famCall(a.V) {
 					f = f.with("witness")
 				}
-				if a.True == 1 {
+				if a.True != 0 {
 					if call, ok := a.V.(*ssa.Call); ok {
-						if h := staticCallee(call); h != nil && h != fn && dynamicPredicate(h) {
+						if h := staticCallee(call); h != nil && h != fn && !famCall(a.V) && witnessWhen(h, a.True == 1) {
 							f = f.with("witness")
 						}
 					}
